@@ -364,6 +364,56 @@ theorem decay_eq (t : CType) (h : wf t = true) : M.decay t = Spec.decay t := by
   | mptr v q => cases v <;> rfl
   | _ => rfl
 
+/-- `decay` is idempotent ([meta.trans.other]: the result is never a reference, an array or a function type, and has no
+    top-level cv-qualifiers) -/
+theorem decay_idempotent (t : CType) (h : wf t = true) : M.decay (M.decay t) = M.decay t := by
+  have hu : wf (M.removeReference t) = true := by
+    cases t <;> simp_all [M.removeReference, wf_lref, wf_rref]
+  have hnr : isRef (M.removeReference t) = false := by
+    cases t <;> simp_all [M.removeReference, wf, isRef]
+  unfold M.decay
+  generalize M.removeReference t = u at hu hnr
+  cases u with
+  | lref e => simp [isRef] at hnr
+  | rref e => simp [isRef] at hnr
+  | base b q => rcases q with ⟨_ | _, _ | _⟩ <;> cases b <;> rfl
+  | ptr e q => rcases q with ⟨_ | _, _ | _⟩ <;> rfl
+  | mptr e q => rcases q with ⟨_ | _, _ | _⟩ <;> cases e <;> rfl
+  | arr e n =>
+    simp only [wf, Bool.and_eq_true, Bool.not_eq_true', bne_iff_ne] at hu
+    have hr : isRef e = false := hu.1.1.1.2
+    have hf : isFn e = false := hu.1.2
+    have hq : isQualFn e = false := by cases e <;> simp_all [isQualFn, isFn]
+    have he : M.removeReference e = e := by cases e <;> simp_all [M.removeReference, isRef]
+    have hp : mkPtr e = some (ptr e CV.none) := by simp [mkPtr, wf_ptr, hu.1.1.1.1.1, hr, hq]
+    have h1 : M.addPointer e = ptr e CV.none := by unfold M.addPointer; rw [he, hp]
+    simp only [M.isArray, M.removeExtent, ↓reduceIte, h1]
+    rfl
+  | uarr e =>
+    simp only [wf, Bool.and_eq_true, Bool.not_eq_true'] at hu
+    have hr : isRef e = false := hu.1.1.1.2
+    have hf : isFn e = false := hu.1.2
+    have hq : isQualFn e = false := by cases e <;> simp_all [isQualFn, isFn]
+    have he : M.removeReference e = e := by cases e <;> simp_all [M.removeReference, isRef]
+    have hp : mkPtr e = some (ptr e CV.none) := by simp [mkPtr, wf_ptr, hu.1.1.1.1, hr, hq]
+    have h1 : M.addPointer e = ptr e CV.none := by unfold M.addPointer; rw [he, hp]
+    simp only [M.isArray, M.removeExtent, ↓reduceIte, h1]
+    rfl
+  | fn r a q rq ne =>
+    cases hq : isQualFn (fn r a q rq ne)
+    · have hp : mkPtr (fn r a q rq ne) = some (ptr (fn r a q rq ne) CV.none) := by simp [mkPtr, wf_ptr, hu, hq, isRef]
+      have h1 : M.addPointer (fn r a q rq ne) = ptr (fn r a q rq ne) CV.none := by
+        unfold M.addPointer; simp only [M.removeReference]; rw [hp]
+      have h2 : M.isFunction (fn r a q rq ne) = true := rfl
+      simp only [M.isArray, h2, ↓reduceIte, h1, Bool.false_eq_true]
+      rfl
+    · have hp : mkPtr (fn r a q rq ne) = none := by simp [mkPtr, wf_ptr, hu, hq, isRef]
+      have h1 : M.addPointer (fn r a q rq ne) = fn r a q rq ne := by
+        unfold M.addPointer; simp only [M.removeReference]; rw [hp]
+      have h2 : M.isFunction (fn r a q rq ne) = true := rfl
+      simp only [M.isArray, h2, ↓reduceIte, h1, Bool.false_eq_true, M.removeReference]
+example : M.decay (M.decay (lref (arr (base .int ⟨true, false⟩) 3))) = M.decay (lref (arr (base .int ⟨true, false⟩) 3)) := by decide
+
 /-! ### sign modifications and underlying type ([meta.trans.sign], [meta.trans.other]) -/
 
 /-- `make_signed<T>` as tetl computes it (explicit specialisations for the standard integer types, `make_signed_by_size`
@@ -405,16 +455,19 @@ theorem underlyingType_eq (t : CType) :
 
 /-! ### numeric_limits of the integer types -/
 
-/-- the members of an integer specialisation, as the header computes them, are the mathematical ones:
-    `max = 2^digits − 1`, `min = −2^digits` (signed) or `0`, `digits` = value bits, `is_modulo` iff unsigned -/
-theorem intLimits_eq (bits : Nat) (sg : Bool) (hb : 1 ≤ bits) :
+/-- the closed forms of the hand model `intLimits` (Model.lean; what the driver prints for R1) are the mathematical
+    values, for every width: `max = 2^digits − 1`, `min = −2^digits` (signed) or `0`, `digits` = value bits, `is_modulo`
+    iff unsigned.  This is a statement about the MODEL's formula; that the header's own spelling (`<climits>` macros,
+    literals, the shift expression of `detail::integer_numeric_limits`) has these values is
+    `limits_spelled_members_eq` / `limits_template_eq` / `limits_model_eq_spelled` in PropsGen.lean. -/
+theorem intLimits_eq (bits : Nat) (sg : Bool) :
     let m := intLimits .plain bits sg
     let s := Spec.intLimits false bits sg
     m.isSigned = s.isSigned ∧ m.digits = s.digits ∧ m.min = s.min ∧ m.max = s.max ∧ m.lowest = s.lowest ∧
       m.isModulo = s.isModulo := by
   cases sg <;> simp [intLimits, Spec.intLimits]
 
-theorem intLimits_char_eq (bits : Nat) (sg : Bool) (hb : 1 ≤ bits) :
+theorem intLimits_char_eq (bits : Nat) (sg : Bool) :
     let m := intLimits .char bits sg
     let s := Spec.intLimits false bits sg
     m.isSigned = s.isSigned ∧ m.digits = s.digits ∧ m.min = s.min ∧ m.max = s.max ∧ m.lowest = s.lowest ∧
@@ -429,6 +482,15 @@ theorem intLimits_bool_char8 :
     (let m := intLimits .char8 8 false; let s := Spec.intLimits false 8 false;
       m.isSigned = s.isSigned ∧ m.digits = s.digits ∧ m.digits10 = s.digits10 ∧ m.min = s.min ∧ m.max = s.max ∧
       m.isModulo = s.isModulo) := by decide
+
+/-- `traps`: every integer specialisation except `numeric_limits<bool>` says `true`, like the reference libstdc++ -/
+theorem intLimits_traps_partial (k : IntKind) (bits : Nat) (sg : Bool) (h : k ≠ .bool) :
+    (intLimits k bits sg).traps = Spec.intTraps false := by
+  cases k <;> first | exact absurd rfl h | rfl
+example : IntKind.char8 ≠ IntKind.bool := by decide
+/-- … and `numeric_limits<bool>::traps` is `false` where libstdc++ says `true` (known finding
+    F-C15-limits-bool-traps: the member is implementation-defined, libc++ and MSVC agree with tetl) -/
+theorem intLimits_traps_counterexample : (intLimits .bool 8 false).traps ≠ Spec.intTraps true := by decide
 
 /-- `digits10 = digits * 3 / 10` is `⌊digits · log10 2⌋` (the largest `k` with `10^k ≤ 2^digits`) for every
     width below 103 value bits — complete finite check -/
@@ -585,8 +647,8 @@ example : wf (fn (lref (base .cls ⟨true, false⟩)) .a2 CV.none .none true) = 
 /-- … and fails for a reference to a qualified function type and an array of references -/
 example : wf (lref (fn (base .void CV.none) .a0 ⟨true, false⟩ .none false)) = false := by decide
 example : wf (arr (lref (base .int CV.none)) 3) = false := by decide
-/-- the width hypotheses: every builtin type (up to 64 value bits) is below 103; 1 ≤ bits -/
-example : (64 : Nat) < 103 ∧ 1 ≤ (8 : Nat) := by decide
+/-- the width hypothesis: every builtin type (up to 64 value bits) is below 103 -/
+example : (64 : Nat) < 103 := by decide
 /-- sample evaluations (tests, not proofs): decay of `const int (&)[3]`, of `void() const &&`, make-pointer of a reference -/
 example : M.decay (lref (arr (base .int ⟨true, false⟩) 3)) = ptr (base .int ⟨true, false⟩) CV.none := by decide
 example : M.decay (fn (base .void CV.none) .a0 ⟨true, false⟩ .rref false) = fn (base .void CV.none) .a0 ⟨true, false⟩ .rref false := by decide
